@@ -127,4 +127,5 @@ static void world_rule (void)
   mk_os (&rules_ptr->rules_os);
   { _Bool has; if (has) { rules_ptr->curr_rule = malloc (sizeof (struct rule)); __CPROVER_assume (rules_ptr->curr_rule != NULL); } else rules_ptr->curr_rule = NULL; }
 }
-void h_rule_start (void) { struct symb *lhs; const char *an; int c; world_rule (); rule_new_start (lhs, an, c); if (an) VACUITY_CANARY_N ("with abstract node"); else VACUITY_CANARY_N ("without"); }
+/* (the name is passed as the harness pointer itself: a pointer that is only tied to it by the assumed precondition has no points-to set) */
+void h_rule_start (void) { struct symb *lhs; const char *an; int c; _Bool with; world_rule (); an = with ? gh_name : NULL; rule_new_start (lhs, an, c); if (an) VACUITY_CANARY_N ("with abstract node"); else VACUITY_CANARY_N ("without"); }
